@@ -243,7 +243,34 @@ def rule_r3(ctx) -> List[R.Inst]:
             (isinstance(sl.slice.lower, ast.Constant) and sl.slice.lower.value == 3) or
             (isinstance(sl.slice.lower, ast.UnaryOp) and isinstance(sl.slice.lower.op, ast.USub) and
              isinstance(sl.slice.lower.operand, ast.Constant) and sl.slice.lower.operand.value == 2))
-        if ok_slice:
+        # normalisations applied to the stored id must also be applied where objects look it up (they are not: the
+        # object pairs of the data lines index the table as they stand)
+        base = sl.value if isinstance(sl, ast.Subscript) else None
+        folds = []
+        seen = 0
+        while base is not None and seen < 5:
+            seen += 1
+            if isinstance(base, ast.Call) and isinstance(base.func, ast.Attribute) and base.func.attr in (
+                    "upper", "lower", "casefold", "swapcase", "title", "capitalize"):
+                folds.append(base.func.attr)
+                base = base.func.value
+            elif isinstance(base, ast.Name):
+                ds = local_defs(hdr.node, base.id)
+                loopvar = any(isinstance(n, ast.For) and base.id in {x.id for x in ast.walk(n.target) if isinstance(x, ast.Name)}
+                              for n in walk_no_nested(hdr.node))
+                if loopvar or len(ds) != 1:
+                    break
+                base = ds[0]
+            else:
+                break
+        lookup_folds = [n.func.attr for n in ast.walk(fn.node) if isinstance(n, ast.Call) and isinstance(n.func, ast.Attribute)
+                        and n.func.attr in ("upper", "lower", "casefold") and "pair" in unparse(n.func.value)]
+        if ok_slice and folds and not lookup_folds:
+            insts.append(R.viol(rid, key, file_h, st[0].lineno,
+                                f"ids are stored {'/'.join(folds)}-cased ('{sl_txt}') but objects look the table up with the id as "
+                                f"written in the data line: a chart whose ids contain lower-case letters (#WAV0a / object 0a) finds "
+                                f"nothing", construct=unparse(st[0])))
+        elif ok_slice:
             insts.append(R.ok(rid, key, file_h, st[0].lineno, idiom=f"self.{table}[{sl_txt}] = value (two-character id)"))
         elif isinstance(sl, ast.Subscript) and isinstance(sl.slice, ast.Slice):
             insts.append(R.viol(rid, key, file_h, st[0].lineno,
@@ -762,6 +789,45 @@ def rule_r8(ctx) -> List[R.Inst]:
     return insts
 
 
+def rule_r9(ctx) -> List[R.Inst]:
+    """every '#mmmcc:' line of the file reaches _read_notes (several lines may share measure and channel)"""
+    M = ctx.M
+    rid = "C04.R9"
+    fn = M.fn(f"{BMSMAP}.read")
+    file = M.mods[fn.mod].rel
+    call = next((n for n in walk_no_nested(fn.node) if isinstance(n, ast.Call) and call_name(n) == "_read_notes"), None)
+    if call is None or not call.args:
+        return [R.undec(rid, "data-lines", file, fn.node.lineno, "call to _read_notes not found")]
+    arg = call.args[0]
+    names = {x.id for x in ast.walk(arg) if isinstance(x, ast.Name)}
+    acc = None
+    for nm in names:
+        ds = local_defs(fn.node, nm)
+        if ds and isinstance(ds[0], (ast.List, ast.Dict, ast.Call, ast.Set)):
+            acc = (nm, ds[0])
+    if acc is None:
+        return [R.undec(rid, "data-lines", file, call.lineno, "accumulator of the data lines not found")]
+    nm, init = acc
+    appends = [n for n in ast.walk(fn.node) if isinstance(n, ast.Call) and call_name(n) in ("append", "extend") and
+               unparse(n.func.value) == nm]
+    keyed = [n for n in ast.walk(fn.node) if isinstance(n, ast.Assign) and isinstance(n.targets[0], ast.Subscript) and
+             unparse(n.targets[0].value) == nm]
+    if isinstance(init, ast.List) and appends and not keyed and isinstance(arg, ast.Name):
+        return [R.ok(rid, "data-lines", file, appends[0].lineno, idiom="every data line is appended to a list that is passed on whole")]
+    if keyed or isinstance(init, (ast.Dict, ast.Set)):
+        k = keyed[0] if keyed else init
+        return [R.viol(rid, "data-lines", file, k.lineno,
+                       f"data lines are stored under a key ('{unparse(k)[:60]}'): a second line for the same measure and channel replaces "
+                       f"the first, so its objects (notes, tempo changes, LN heads) are lost", construct=unparse(k)[:120])]
+    return [R.undec(rid, "data-lines", file, call.lineno, f"data lines reach _read_notes as '{unparse(arg)}'")]
+
+
+def rule_r10(ctx) -> List[R.Inst]:
+    from .common import forwarding_insts
+    return forwarding_insts(ctx, "C04.R10", BMSMAP + ".read_file", ("read",)) + \
+        forwarding_insts(ctx, "C04.R10", BMSMAP + ".read", ("_read_notes",))
+
+
 SPECS = [
     RuleSpec("C04.R1", rule_r1, 5, "A10", "five channel layouts: injective, contiguous, roles on 02/03/08, equal to the format table"),
     RuleSpec("C04.R2", rule_r2, 6, "A7", "role names used by reader and writer are values of _HEADER"),
@@ -770,6 +836,8 @@ SPECS = [
     RuleSpec("C04.R5", rule_r5, 5, "A8", "objects timed by the un-reseated map from sorted changes at 0 ms; tempo list from the reseated map"),
     RuleSpec("C04.R6", rule_r6, 1, "A5", "LN pairing must not depend on the order of the lines"),
     RuleSpec("C04.R7", rule_r7, 5, "A7", "line slicing '#mmmcc:' and slot position i/n * beats-per-measure"),
+    RuleSpec("C04.R9", rule_r9, 1, "A8", "every data line reaches the note reader (no keyed overwrite)"),
+    RuleSpec("C04.R10", rule_r10, 2, "A8", "read_file / read forward the channel layout they accept"),
     RuleSpec("C04.R8", rule_r8, 9, "A5", "parallel sequences: column, sample, head and tail reach the right constructor keyword"),
 ]
 
